@@ -12,7 +12,7 @@ def run(tier, seed):
     cov = res.coverage
     cov['bounds'] = {k: doc[k] for k in ('token_seq_len', 'script_len_sigma2', 'script_len_nasty', 'dialects')}
     cov['outcomes'] = doc['counters']
-    cov['rule'] = ('every input of the C11 token-sequence space (length <= token_seq_len) and token-edit space, and every reference diff of edit scripts '
+    cov['rule'] = ('every input of the two C11 token-sequence spaces (main and exotic-spelling alphabet, length <= token_seq_len) and the token-edit space, and every reference diff of edit scripts '
                    '(length <= script_len over {a,b} / the nasty alphabet, all no-newline/absent flags, context 0/1/3) under each header dialect; inputs the parser '
                    'rejects are skipped. Oracle: write(p) parses; same number of file patches; per file patch same kind, names, rename flag, modes, hashes; '
                    'per hunk same old/new line sequences and start lines; write(parse(write(p))) == write(p). non-trivial = parsed inputs with >= 1 file patch')
